@@ -8,8 +8,8 @@ from checks.ipcommon import REAL_IP, STUB_IP, execute_filtered, rnd_time
 PROP = "C08"
 LEVEL = "exploration"
 RULE = (
-    "first, every interleaving word of depth <= 3 (quick, 819 words) / <= 4 (thorough, 7380) over {request, two concurrent requests, event burst, cancelled "
-    "request, 30 s time-out, peer FIN, peer RST, unsolicited response, response delivered byte by byte}, letters 0.4 s apart so that each lands inside the "
+    "first, every interleaving word of depth <= 3 (quick, 1110 words) / <= 4 (thorough, 11110) over {request, two concurrent requests, event burst, cancelled "
+    "request, 30 s time-out, peer FIN, peer RST, unsolicited response, response delivered byte by byte, EVENT in the same read as a response}, letters 0.4 s apart so that each lands inside the "
     "effects of the previous ones, is executed once; then seeded runs: one run = real IpPairing on the simulated network; 1-4 concurrent callers issue get/put/list with unique id sets "
     "(reads are tagged by the accessory with the serial number of the request they answer); per-run swarm profile picks "
     "latency, segmentation style, response delays around the 30 s timer, stalls, truncation-by-close, EVENT bursts "
@@ -27,7 +27,7 @@ TIERS = {"quick": {"runs": 20000, "wall": 55}, "thorough": {"runs": 400000, "wal
 
 
 # ---- enumerated short interleavings: every word of depth <= 3 (quick) / <= 4 (thorough) over the property's alphabet ------------
-ALPHA = ["request", "two_requests", "event", "cancel", "timeout", "peer_fin", "peer_rst", "unsolicited", "request_pieces"]
+ALPHA = ["request", "two_requests", "event", "cancel", "timeout", "peer_fin", "peer_rst", "unsolicited", "request_pieces", "event_in_response_read"]
 
 
 def _words(depth):
@@ -68,6 +68,10 @@ def enum_plan(word) -> dict:
             ops.append({"op": "unsolicited", "t": t})
         elif a == "request_pieces":
             ops.append({"op": "get", "ids": ids + [[2, 20 + k]], "t": t})
+        elif a == "event_in_response_read":
+            # the accessory sends an EVENT right behind the response; both arrive in one read (one data_received call)
+            ops.append({"op": "event", "n": 1, "ids": [[1, 10]], "raw": None, "after_response": True, "t": t})
+            ops.append({"op": "get", "ids": ids, "t": round(t + 0.001, 3)})
         t = round(t + 0.4, 3)
     profile = {"hosts": [["10.0.0.1", "genuine"]], "lat": [0.002, 0.002], "seg": "bytes" if "request_pieces" in word else "whole", "gap": 0.001 if "request_pieces" in word else 0.0,
                "frame": "max", "n_chars": 24}
@@ -93,6 +97,7 @@ def gen_plan(seed: int, tier: str, enumerate_first: bool = True) -> dict:
         "zero_latency": r.choice([0, 0, 0.3]),
         "n_chars": 24,
         "rst_window_hops": r.choice([0, 0, 1, 3]),
+        "coalesce": r.choice([0, 0, 0.3, 1.0]),  # sends still in flight may share one read with the next send
     }
     if faulty:
         profile["resp_delay"] = [r.choice([0.0, 0.2, 0.5]), r.choice([0.0, 5.0, 29.0, 29.9]), r.choice([10.0, 30.0, 30.1, 31.0, 45.0])]
@@ -122,6 +127,8 @@ def gen_plan(seed: int, tier: str, enumerate_first: bool = True) -> dict:
             op = {"op": "list"}
         elif x < 0.72:
             op = {"op": "event", "n": r.choice([1, 1, 2, 5]), "ids": [[1, 10 + r.randrange(3)]], "raw": r.choice([None, None, None, "empty", "nonjson"])}
+            if r.random() < 0.3:
+                op["after_response"] = True  # goes out right behind the next secure response, in the same read
         elif faulty and x < 0.80:
             op = {"op": r.choice(["rst", "fin"])}
             if op["op"] == "rst" and profile.get("rst_window_hops"):
